@@ -227,16 +227,21 @@ fn emit_switch_conditional(
     let preamble_len = value_tokens.len() + 2; // ev + value_tokens + /ev
 
     let num_branches = branches.len();
-    // Layout: [preamble_len tokens] [N branch arrays] [nop]
-    let nop_index = switch_index + preamble_len + num_branches;
+    // Without an `else` branch nothing pops the switched value when no case matches: a final
+    // "pop" does, and the branches that were taken rejoin behind it.
+    let needs_final_pop = branches.last().is_some_and(|(case, _)| case.is_some());
+    // Layout: [preamble_len tokens] [N branch arrays] [pop?] [nop]
+    let nop_index = switch_index + preamble_len + num_branches + usize::from(needs_final_pop);
     let exit_target = joined_path(&scope.path, nop_index);
 
     // Emit all branch bodies first (they all reference exit_target)
     let mut branch_bodies: Vec<EmittedContainer> = Vec::new();
     for (branch_index, (_, body_nodes)) in branches.iter().enumerate() {
         let branch_array_index = switch_index + preamble_len + branch_index;
-        let branch_scope =
-            scope.conditional_branch(&format!("{branch_array_index}.b"));
+        // (the branch starts with a "pop" inserted below: indexed paths into it count it)
+        let branch_scope = scope
+            .conditional_branch(&format!("{branch_array_index}.b"))
+            .with_param_offset(1);
         let mut body = emit_nodes(body_nodes, &branch_scope, context)?;
         body.push(json!({"->": exit_target}));
         branch_bodies.push(body);
@@ -288,6 +293,9 @@ fn emit_switch_conditional(
         }
     }
 
+    if needs_final_pop {
+        out.push(json!("pop"));
+    }
     out.push(json!("nop"));
     Ok(out)
 }
